@@ -20,7 +20,7 @@ ASSUMPTIONS = ["fault -> code table follows hed/errors/schema_error_messages.py 
                "release found in the hermetic cache", "SCHEMA_PRERELEASE_VERSION_USED is ignored"]
 MIN_MONITOR_EVALS = {"released-schema-no-error": 9, "seeded-fault-has-code": 120, "warnings-off-only-errors": 120}
 WATCHDOG_S = {"quick": 1500, "thorough": 7200}
-CODES = {"duplicate-node": "SCHEMA_DUPLICATE_NODE", "attribute-from-other-section": "SCHEMA_ATTRIBUTE_INVALID",
+CODES = {"duplicate-node": "SCHEMA_DUPLICATE_NODE", "library-node-named-as-standard": "SCHEMA_LIBRARY_INVALID", "attribute-from-other-section": "SCHEMA_ATTRIBUTE_INVALID",
          "unknown-attribute": "SCHEMA_ATTRIBUTE_INVALID", "missing-unit-class": "SCHEMA_ATTRIBUTE_VALUE_INVALID",
          "missing-value-class": "SCHEMA_ATTRIBUTE_VALUE_INVALID", "missing-suggested-tag": "SCHEMA_ATTRIBUTE_VALUE_INVALID",
          "missing-related-tag": "SCHEMA_ATTRIBUTE_VALUE_INVALID", "class-attribute-on-non-placeholder": "SCHEMA_ATTRIBUTE_VALUE_INVALID",
@@ -101,6 +101,19 @@ def seed_fault(version, fault, pos, exhaustive=False):
         if lib:
             _attr(dup, "inLibrary", [lib])
         desc = n.findtext("name")
+    elif fault == "library-node-named-as-standard":
+        if not lib:
+            return None
+        std = [x for x in nodes if _get_attr(x, "inLibrary") is None]
+        host_pool = [x for x in nodes_l if not any(c.findtext("name") == "#" for c in x.findall("node"))]
+        n, host = pick(std), (host_pool[(pos * 31) % len(host_pool)] if host_pool else None)
+        if n is None or host is None:
+            return None
+        dup = ET.SubElement(host, "node")
+        ET.SubElement(dup, "name").text = n.findtext("name")
+        ET.SubElement(dup, "description").text = "a library node taking the name of a standard node"
+        _attr(dup, "inLibrary", [lib])
+        desc = f"{n.findtext('name')} under {host.findtext('name')}"
     elif fault == "attribute-from-other-section":
         # every declared attribute x every kind of element it is not declared for
         sections = {"tag": nodes_l}
@@ -182,17 +195,22 @@ def seed_fault(version, fault, pos, exhaustive=False):
     elif fault in ("deprecated-from-unknown", "deprecated-from-not-older"):
         if "deprecatedFrom" not in attr_defs:
             return None
-        leaves = [x for x in nodes_l if not x.findall("node") and _get_attr(x, "deprecatedFrom") is None]
+        std_ver = root.get("withStandard") or sver
+        std_part = bool(lib) and fault == "deprecated-from-not-older" and pos % 3 == 2
+        if std_part:
+            # a node of the standard part of a partnered library: its versions are those of the standard schema
+            pool = [x for x in nodes if _get_attr(x, "inLibrary") is None]
+        else:
+            pool = nodes_l
+        leaves = [x for x in pool if not x.findall("node") and _get_attr(x, "deprecatedFrom") is None]
         n = pick(leaves)
         if n is None:
             return None
-        std_ver = root.get("withStandard") or sver
         val = "9.9.9" if fault == "deprecated-from-unknown" else (sver if pos % 2 == 0 else "99.0.0")
         if fault == "deprecated-from-not-older" and lib:
-            val = sver
+            val = std_ver if std_part else sver
         _attr(n, "deprecatedFrom", [val])
-        desc = f"{n.findtext('name')} deprecatedFrom {val}"
-        del std_ver
+        desc = f"{n.findtext('name')} deprecatedFrom {val}" + (" (standard part)" if std_part else "")
     elif fault in ("conversion-factor-not-positive", "conversion-factor-not-numeric"):
         if lib or "conversionFactor" not in attr_defs:
             return None
